@@ -107,6 +107,8 @@ pub struct MmapStorage {
     file: File,
     mmap: MmapMut,
     page_count: u32,
+    #[cfg(kahflane_turdb_verif)]
+    verif_path: std::path::PathBuf,
 }
 
 impl MmapStorage {
@@ -156,6 +158,8 @@ impl MmapStorage {
             file,
             mmap,
             page_count,
+            #[cfg(kahflane_turdb_verif)]
+            verif_path: path.to_path_buf(),
         })
     }
 
@@ -191,10 +195,15 @@ impl MmapStorage {
                 .wrap_err_with(|| format!("failed to memory-map '{}'", path.display()))?
         };
 
+        #[cfg(kahflane_turdb_verif)]
+        crate::verif::file_event("created", path);
+
         Ok(Self {
             file,
             mmap,
             page_count: initial_page_count,
+            #[cfg(kahflane_turdb_verif)]
+            verif_path: path.to_path_buf(),
         })
     }
 
@@ -217,6 +226,9 @@ impl MmapStorage {
             page_no,
             self.page_count
         );
+
+        #[cfg(kahflane_turdb_verif)]
+        crate::verif::point("mmap.page_mut", &[page_no as i64]);
 
         let offset = page_no as usize * PAGE_SIZE;
         Ok(&mut self.mmap[offset..offset + PAGE_SIZE])
@@ -244,10 +256,22 @@ impl MmapStorage {
 
         self.page_count = new_page_count;
 
+        #[cfg(kahflane_turdb_verif)]
+        crate::verif::point("mmap.grow", &[new_page_count as i64]);
+
         Ok(())
     }
 
     pub fn sync(&self) -> Result<()> {
+        #[cfg(kahflane_turdb_verif)]
+        {
+            let r = self.mmap.flush().wrap_err("failed to sync mmap to disk");
+            if r.is_ok() {
+                crate::verif::file_event("msync", &self.verif_path);
+            }
+            return r;
+        }
+        #[cfg(not(kahflane_turdb_verif))]
         self.mmap.flush().wrap_err("failed to sync mmap to disk")
     }
 
